@@ -385,6 +385,13 @@ def _skeletonize(tier, seed):
         for c in range(rng.randint(0, 2)):       # controls protect the elements they mention
             pn = rng.choice(pipes[1:]) if c or "TWIN" not in pipes else rng.choice(["TWIN", pipes[1]])
             wn.add_control("ctl%d" % c, Control(SimTimeCondition(wn, "==", 1800 * (c + 1)), ControlAction(wn.get_link(pn), "status", 0)))
+        # elements that occur only in the *condition* of a control / rule are protected too
+        from wntr.network.controls import ValueCondition, Rule
+        jn = rng.choice(names[1:])
+        wn.add_control("low_pressure", Control(ValueCondition(wn.get_node(jn), "pressure", "<", 5.0), ControlAction(wn.get_link(pipes[0]), "status", 0)))
+        if len(pipes) > 2:
+            watched = wn.get_link(rng.choice(pipes[1:]))
+            wn.add_control("on_flow", Rule(ValueCondition(watched, "flow", ">", 10.0), [ControlAction(wn.get_link(pipes[0]), "status", 1)], name="on_flow"))
         return wn
     ngen = 12 if tier == "quick" else 60
     nets = list(nets) + ["generated:%d" % k for k in range(ngen)]
